@@ -77,8 +77,20 @@ def measure_facts():
     protos, kinds, P = impl_env()
     p = protos['base']
     f = {}
-    o = outcome(lambda: c_dt(p.from_unicode(P.DateTime, '2020-01-01T00:00:00-04:49')))
-    f['offsetRule'] = {-289: 'signMagnitude', -191: 'signedHoursPlusMinutes'}.get((o.get('ok') or [None] * 8)[7], 'other')
+    # the offset rule is probed on several literals: the sign must apply to hours AND minutes,
+    # also when the hour field is 00
+    probes = {'-04:49': -289, '-00:30': -30, '+05:30': 330, '-00:01': -1, '+00:45': 45, '-13:59': -839}
+    got = {}
+    for lit, want in probes.items():
+        o = outcome(lambda: c_dt(p.from_unicode(P.DateTime, '2020-01-01T00:00:00' + lit)))
+        got[lit] = (o.get('ok') or [None] * 8)[7]
+    if all(got[l] == w for l, w in probes.items()):
+        f['offsetRule'] = 'signMagnitude'
+    elif got['-04:49'] == -191 and got['-00:30'] == 30:
+        f['offsetRule'] = 'signedHoursPlusMinutes'
+    else:
+        f['offsetRule'] = 'other'
+    f['offsetProbe'] = got
     o = outcome(lambda: p.to_unicode(P.Duration, pydt.timedelta(microseconds=5)))
     f['durFracFmt'] = {'PT0.000005S': 'pad6', 'PT0.5S': 'plainInt'}.get(o.get('ok'), 'other')
     a = outcome(lambda: td_us(p.from_unicode(P.Duration, 'PT1.000001S')))
@@ -101,7 +113,7 @@ def measure_facts():
 
 
 FACT_WITNESS = {
-    'offsetRule': ('datetime.from', '2020-01-01T00:00:00-04:49'),
+    'offsetRule': ('datetime.from', '2020-01-01T00:00:00-00:30'),
     'durFracFmt': ('dur.to', 5),
     'durParse': ('dur.from', 'PT1.000001S'),
     'boolLex': ('bool.from', 'junk'),
